@@ -9,8 +9,9 @@
 //! output file to the Lean driver, which computes the Plan from the flags and judges.
 //!
 //! Decided by the harness itself (`!FAIL`): `-t` output that does not re-assemble (`wat`) into a
-//! valid component whose printed form is the same text; a run that leaves an output file behind
-//! although it failed; a crash (signal) of the binary.
+//! valid component whose printed form is the same text; a failing run that leaves a file at the
+//! `-o` path, or that changes or removes a file that was there before the run (half of the `-o`
+//! runs start with one); a crash (signal) of the binary.
 #[path = "../small_util.rs"]
 mod small_util;
 
@@ -71,6 +72,28 @@ const OTHER_WAT: &str = r#"(component
   (func $h (canon lift (core func $i "h")))
   (export "h" (func $h)))"#;
 
+/// imports `f` with a different type than `greeter` / `pass` do (implicit-import merge conflict)
+const F2_WAT: &str = r#"(component
+  (import "f" (func (result u32))))"#;
+
+/// exports an instance `more` holding a record `r` and a function `g(a: r)`: exporting an alias
+/// of `g` from a composition encodes to a component that the validator rejects (known finding
+/// `enc-named-type-out-of-scope-exported-function`), so the composition resolves and encodes,
+/// and fails (only) in the validation step of `encode`
+const DEEP_WAT: &str = r#"(component
+  (component $C
+    (type $r' (record (field "x" u32)))
+    (export $r "r" (type $r'))
+    (core module $m (func (export "g") (param i32)))
+    (core instance $i (instantiate $m))
+    (func $g (param "a" $r) (canon lift (core func $i "g")))
+    (export "g" (func $g)))
+  (instance $inst (instantiate $C))
+  (export "more" (instance $inst)))"#;
+
+/// what a pre-existing file at the `-o` path holds before the run
+const SENTINEL: &[u8] = b"previous contents of the output path\n";
+
 /// a generated composition: a chain of `len` pass-through instances between `name` and
 /// `greeter`, optionally leaving the first link to an implicit import and exporting extras
 fn chain(len: usize, implicit_head: bool, export_all: bool) -> String {
@@ -99,10 +122,42 @@ fn chain(len: usize, implicit_head: bool, export_all: bool) -> String {
     s
 }
 
-fn compositions(r: &mut Rng, extra: usize) -> Vec<(&'static str, String)> {
+/// a generated composition that parses and resolves and fails in `encode`: a chain with one of
+/// three endings — an explicit import of the name the chain's head imports implicitly
+/// (import conflict), a second implicit importer of `f` with another type (merge conflict), or
+/// an export that only the validator rejects (validation failure; passes with `--no-validate`)
+fn encode_failing(r: &mut Rng) -> (&'static str, String) {
+    let len = r.below(3);
+    match r.below(3) {
+        0 => {
+            let mut s = chain(len, true, r.chance(1, 2));
+            if r.chance(1, 2) {
+                s = s.replacen("package t:comp;\n", "package t:comp;\nimport f: func();\n", 1);
+            } else {
+                s.push_str("import f: func();\n");
+            }
+            ("generated-import-conflict", s)
+        }
+        1 => {
+            let mut s = chain(len, true, r.chance(1, 2));
+            s.push_str("let other = new t:f2 { ... };\n");
+            ("generated-merge-conflict", s)
+        }
+        _ => {
+            let mut s = chain(len, r.chance(1, 2), r.chance(1, 2));
+            s.push_str("let d = new t:deep {};\nexport d.more.g as dg;\n");
+            ("generated-validation-failure", s)
+        }
+    }
+}
+
+fn compositions(r: &mut Rng, extra: usize, extra_failing: usize) -> Vec<(&'static str, String)> {
     let mut v = fixed_compositions();
     for _ in 0..extra {
         v.push(("generated-chain", chain(r.below(4), r.chance(1, 3), r.chance(1, 2))));
+    }
+    for _ in 0..extra_failing {
+        v.push(encode_failing(r));
     }
     v
 }
@@ -116,6 +171,21 @@ fn fixed_compositions() -> Vec<(&'static str, String)> {
         ("resolve-error", "package t:comp;\nlet n = new t:name {};\nlet g = new t:greeter { f: n.nosuch };\nexport g.g;\n".into()),
         ("missing-argument", "package t:comp;\nlet g = new t:greeter {};\nexport g.g;\n".into()),
         ("nested-merge", "package t:comp;\nlet a = new t:nest1 { ... };\nlet b = new t:nest2 { ... };\n".into()),
+        // parse and resolve, fail in `Resolution::encode` (three ways)
+        ("encode-import-conflict", "package t:comp;\nlet g = new t:greeter { ... };\nimport f: func();\nexport g.g;\n".into()),
+        ("encode-merge-conflict", "package t:comp;\nlet g = new t:greeter { ... };\nlet h = new t:f2 { ... };\nexport g.g;\n".into()),
+        ("encode-validation-failure", "package t:comp;\nlet d = new t:deep {};\nexport d.more.g as g;\n".into()),
+        // 1001 instantiations: a correct encoding that the validator rejects for its size
+        // (wasmparser's limit of 1000 instances) - a validation failure that does not depend on
+        // any defect of the encoder staying unrepaired
+        ("encode-validation-limit", {
+            let mut s = String::from("package t:comp;\n");
+            for i in 0..1001 {
+                s.push_str(&format!("let n{i} = new t:name {{}};\n"));
+            }
+            s.push_str("export n0.f;\n");
+            s
+        }),
     ]
 }
 
@@ -201,7 +271,28 @@ fn lib_compose(cwd: &Path, source: &str, deps_dir: &str, overrides: &[(String, S
         return Err("packages");
     }
     let resolution = document.resolve(found).map_err(|_| "resolve")?;
-    resolution.encode(EncodeOptions { define_components: define, validate, ..Default::default() }).map_err(|_| "encode")
+    resolution.encode(EncodeOptions { define_components: define, validate, ..Default::default() }).map_err(|e| match e {
+        wac_parser::resolution::Error::ValidationFailure { .. } => "encode:validation",
+        wac_parser::resolution::Error::ImportConflict { .. } => "encode:import-conflict",
+        wac_parser::resolution::Error::InstantiationArgMergeFailure { .. } => "encode:merge-conflict",
+        _ => "encode",
+    })
+}
+
+/// What the run did to the `-o` path, as the token the driver reads (`-` = nothing written,
+/// `F<content>` = this was written) — plus the harness's own verdict for a failing run.
+/// With a file already at the path (`pre`), "nothing written" means: still there, byte-identical.
+fn output_path_observation(out: &mut Out, pre: bool, file: Option<Vec<u8>>) -> (Option<Vec<u8>>, Option<&'static str>) {
+    match (pre, file) {
+        (false, None) => (None, None),
+        (false, Some(b)) => (Some(b), Some("a failing run left a file at the output path")),
+        (true, Some(b)) if b == SENTINEL => {
+            out.count("output-path:pre-existing-file-untouched");
+            (None, None)
+        }
+        (true, Some(b)) => (Some(b), Some("a failing run changed the file that was already at the output path")),
+        (true, None) => (None, Some("a failing run removed the file that was already at the output path")),
+    }
 }
 
 /// `plug:<stem>` names as the documentation describes them, groups in the given order
@@ -345,6 +436,8 @@ fn main() {
         ("nest1", comp(NEST1_WAT)),
         ("nest2", comp(NEST2_WAT)),
         ("pass", comp(PASS_WAT)),
+        ("f2", comp(F2_WAT)),
+        ("deep", comp(DEEP_WAT)),
     ];
     let name2 = comp(NAME2_WAT);
     let other = comp(OTHER_WAT);
@@ -387,8 +480,10 @@ fn main() {
         DepsVariant { label: "source-in-subdir", dir: "deps", flag: None, deps: vec![], omit_name_from_dir: false, source: "sub/input.wac" },
         DepsVariant { label: "dangling-dep", dir: "deps", flag: None, deps: vec![("t:name", "elsewhere/missing.wasm")], omit_name_from_dir: false, source: "input.wac" },
     ];
-    let all_compositions = compositions(&mut r, if thorough { 40 } else { 1 });
+    let all_compositions = compositions(&mut r, if thorough { 40 } else { 1 }, if thorough { 20 } else { 2 });
     let mut combo_no = 0usize;
+    // -o runs whose library pipeline fails inside encode: [conflict (import / merge), validation]
+    let mut late_failures_with_output = [0usize; 2];
     let mut lib_cache: HashMap<(String, &'static str, &'static str), Vec<Result<Vec<u8>, &'static str>>> = HashMap::new();
     for (clabel, source) in all_compositions.clone() {
         for v in &variants {
@@ -401,14 +496,21 @@ fn main() {
                 // the other dependency-location variants (every combination still occurs for
                 // every variant across the compositions); thorough and replay: everything
                 let fails_early = matches!(clabel, "parse-error" | "unknown-package" | "resolve-error" | "missing-argument");
+                let fails_late = clabel.starts_with("encode-") || (clabel.starts_with("generated-") && clabel != "generated-chain");
                 let keep_every = match (v.label == "default-dir", fails_early) {
                     (true, false) => 1,
+                    (false, false) if clabel == "encode-validation-limit" => 16,
+                    (false, false) if fails_late => 8,
                     (true, true) => 2,
                     (false, false) => 4,
                     (false, true) => 16,
                 };
                 let sampled = !thorough && replay_tags.is_none() && (mask as usize + combo_no) % keep_every != 0;
-                let tag = format!("{clabel}|{}|{mask}|{}", v.label, source.len());
+                // half of the `-o` runs find a file already at the output path (a failing run has
+                // to leave it byte-identical, a successful one replaces it); which half rotates
+                // with the dependency variant and the composition
+                let pre = with_output && (mask.count_ones() as usize + combo_no) % 2 == 0;
+                let tag = format!("{clabel}|{}|{mask}|{}{}", v.label, source.len(), if pre { "|pre-existing-output" } else { "" });
                 if !take || sampled || !wanted(&tag) {
                     continue;
                 }
@@ -451,10 +553,23 @@ fn main() {
                     argv.push(if mask & 2 != 0 { "--output".into() } else { "-o".into() });
                     argv.push("out/result.bin".into());
                     fs::create_dir_all(cwd.join("out")).unwrap();
+                    if pre {
+                        fs::write(cwd.join("out/result.bin"), SENTINEL).unwrap();
+                        out.count("compose:output-path:pre-existing-file");
+                    }
                 }
                 argv.push(path.into());
                 let o = ctx.run_wac(&cwd, &argv);
                 let file = fs::read(cwd.join("out/result.bin")).ok();
+                // after a failing run: nothing at the output path / the earlier file untouched
+                let mut path_verdict = None;
+                let file = if o.exit != Some(0) || !with_output {
+                    let (f, verdict) = output_path_observation(&mut out, pre, file);
+                    path_verdict = verdict;
+                    f
+                } else {
+                    file
+                };
 
                 // the harness's reading of the dependency flags (checked against the Plan by the driver)
                 let deps_dir = v.flag.unwrap_or("deps");
@@ -509,12 +624,23 @@ fn main() {
                     Err(s) => s,
                 }];
                 out.count(&format!("compose:stage:{}", stages[0]));
+                // the stage at which *this* run's options make the library fail
+                let this_run = &results[(if import_deps { 2 } else { 0 }) + (if no_validate { 1 } else { 0 })];
+                if let Err(stage) = this_run {
+                    if stage.starts_with("encode") && with_output {
+                        late_failures_with_output[if *stage == "encode:validation" { 1 } else { 0 }] += 1;
+                        out.count(&format!("compose:fails-in-{stage}:with-o{}{}", if wat { "-t" } else { "" }, if pre { ":pre-existing-file" } else { ":no-file-before" }));
+                    }
+                }
                 out.count(&format!("compose:deps:{}", v.label));
                 out.count(&format!("compose:source:{clabel}"));
                 f.extend(ctx.obs_fields(&o, file.clone()));
                 let id = out.case(true, "compose", &f);
                 if o.exit.is_none() {
                     out.fail(&id, "wac compose was killed by a signal", &String::from_utf8_lossy(&o.stderr));
+                }
+                if let Some(v) = path_verdict {
+                    out.fail(&id, &format!("wac compose: {v}"), &format!("argv {argv:?}; exit {:?}; library stage: {}", o.exit, this_run.as_ref().err().copied().unwrap_or("ok")));
                 }
                 if o.exit == Some(0) && wat {
                     let text = if with_output { file.clone().unwrap_or_default() } else { o.stdout[..o.stdout.len().saturating_sub(1)].to_vec() };
@@ -523,6 +649,16 @@ fn main() {
                     check_text(&mut out, &id, &text, !no_validate, same_options.as_ref().ok().map(|b| &b[..]));
                 }
                 fs::remove_dir_all(&cwd).ok();
+            }
+        }
+    }
+
+    // the stages after resolution must stay reached (they silently stopped being reached once,
+    // when the defect that made `nested-merge` fail validation was repaired)
+    if replay_tags.is_none() {
+        for (n, what) in late_failures_with_output.iter().zip(["conflict", "validation"]) {
+            if *n == 0 {
+                out.count(&format!("COVERAGE-GAP:no -o run fails in encode ({what})"));
             }
         }
     }
@@ -541,10 +677,13 @@ fn main() {
         ("socket-not-a-component", "garbage.wasm", vec!["name.wasm"]),
         ("dotted-stem", "greeter.wasm", vec!["name.v2.wasm"]),
     ];
+    let mut plug_no = 0usize;
     for (label, socket, plugs) in &plug_cases {
         for mask in 0..4u32 {
             let (wat, with_output) = (mask & 1 != 0, mask & 2 != 0);
-            let tag = format!("{label}|{mask}");
+            plug_no += 1;
+            let pre = with_output && plug_no % 2 == (plug_no / 8) % 2;
+            let tag = format!("{label}|{mask}{}", if pre { "|pre-existing-output" } else { "" });
             if !mine(&mut idx) || !wanted(&tag) {
                 continue;
             }
@@ -552,6 +691,10 @@ fn main() {
             let cwd = ctx.scratch.join(format!("case{}", ctx.n));
             fs::create_dir_all(cwd.join("sub")).unwrap();
             fs::create_dir_all(cwd.join("out")).unwrap();
+            if pre {
+                fs::write(cwd.join("out/plugged.wasm"), SENTINEL).unwrap();
+                out.count("plug:output-path:pre-existing-file");
+            }
             fs::write(cwd.join("greeter.wasm"), &fixtures[1].1).unwrap();
             fs::write(cwd.join("name.wasm"), &fixtures[0].1).unwrap();
             fs::write(cwd.join("sub/name.wasm"), &name2).unwrap();
@@ -573,6 +716,14 @@ fn main() {
             argv.push(socket.to_string());
             let o = ctx.run_wac(&cwd, &argv);
             let file = fs::read(cwd.join("out/plugged.wasm")).ok();
+            let mut path_verdict = None;
+            let file = if o.exit != Some(0) || !with_output {
+                let (f, verdict) = output_path_observation(&mut out, pre, file);
+                path_verdict = verdict;
+                f
+            } else {
+                file
+            };
 
             // groups by file stem in order of first occurrence (independent of the model)
             let mut groups: Vec<(String, Vec<String>)> = Vec::new();
@@ -606,6 +757,9 @@ fn main() {
             let id = out.case(true, "plug", &f);
             if o.exit.is_none() {
                 out.fail(&id, "wac plug was killed by a signal", &String::from_utf8_lossy(&o.stderr));
+            }
+            if let Some(v) = path_verdict {
+                out.fail(&id, &format!("wac plug: {v}"), &format!("argv {argv:?}; exit {:?}", o.exit));
             }
             if o.exit == Some(0) && wat {
                 let text = if with_output { file.clone().unwrap_or_default() } else { o.stdout[..o.stdout.len().saturating_sub(1)].to_vec() };
